@@ -153,3 +153,60 @@ def attr_unit():
 
 
 UNITS.append(attr_unit())
+
+
+# ------------------------------------------------------------------------------------------------ bulk assignment
+from contracts.clone import ClonePlugin, SMAP_B, SMAP_V, CLASSES as ATTR_CLASSES, VAL as CVAL
+LTQ = LIST(T)
+memq = Function('memq', LTQ.z, T.z, BoolSort()); idxq = Function('idxq', LTQ.z, T.z, IntSort())
+_lq = Const('_lq', LTQ.z); _jq = Int('_jq'); _xq = Const('_xq', T.z)
+LQ_AX = [ForAll([_lq], LTQ.len(_lq) >= 0),
+         ForAll([_lq, _jq], Implies(And(0 <= _jq, _jq < LTQ.len(_lq)), memq(_lq, LTQ.at(_lq, _jq))), patterns=[LTQ.at(_lq, _jq)]),
+         ForAll([_lq, _xq], Implies(memq(_lq, _xq), And(0 <= idxq(_lq, _xq), idxq(_lq, _xq) < LTQ.len(_lq), LTQ.at(_lq, idxq(_lq, _xq)) == _xq)), patterns=[memq(_lq, _xq)])]
+
+
+class BulkPlugin(ClonePlugin):
+    def ev_ListComp(self, eng, e, st):
+        g = e.generators[0]
+        if len(e.generators) == 1 and isinstance(e.elt, ast.Name) and e.elt.id == g.target.id and not g.ifs:
+            s, xs = eng.ev1(g.iter, st)
+            if xs.s == LTQ: return [(s, V(xs.e, LTQ))]          # a copy of the list: same sequence of tasks
+        return NotImplemented
+
+    def call(self, eng, e, st):
+        f = e.func
+        if isinstance(f, ast.Attribute) and f.attr == '__setattr__' and isinstance(f.value, ast.Call) and ast.unparse(f.value) == 'super()':
+            s = st
+            for a in e.args: s, _ = eng.ev1(a, s)
+            return [(s, V(None, NONE))]            # attribute of the list facade itself (names starting with '_'): no task is touched
+        return ClonePlugin.call(self, eng, e, st)
+
+
+def bulk_unit():
+    def build():
+        classes = {'Task': dict(ATTR_CLASSES['Task']), '_ImmutableTaskList': {'_list': LTQ}}
+        L = lambda c: Select(c.fld('_ImmutableTaskList', '_list'), c['self'])
+        has = lambda c, w='cur': c.fld('Task', '$has', w); at_ = lambda c, w='cur': c.fld('Task', '$attrs', w)
+        t_ = Const('t_', T.z); k_ = Const('k_', StringSort())
+        reserved = lambda key: Or(*[key == StringVal(n) for n in ('estimate', 'spent', 'id', 'parent', 'children', 'predecessors', 'successors', 'wbs')])
+
+        def inv(c):
+            i = c['_i0']; key = c['key']
+            return And(i >= 0, i <= LTQ.len(L(c)),
+                       ForAll([t_], Implies(And(memq(L(c), t_), idxq(L(c), t_) < i), And(has(c)[t_][key], at_(c)[t_][key] == c['value'])), patterns=[memq(L(c), t_)]),
+                       ForAll([t_, k_], Implies(Or(Not(memq(L(c), t_)), k_ != key), And(has(c)[t_][k_] == has(c, 'pre')[t_][k_], at_(c)[t_][k_] == at_(c, 'pre')[t_][k_])), patterns=[has(c)[t_][k_]]),
+                       ForAll([t_], Implies(And(memq(L(c), t_), idxq(L(c), t_) >= i, Not(Exists([_jq], And(0 <= _jq, _jq < i, LTQ.at(L(c), _jq) == t_)))),
+                                            And(has(c)[t_][key] == has(c, 'pre')[t_][key], at_(c)[t_][key] == at_(c, 'pre')[t_][key])), patterns=[memq(L(c), t_)]))
+        fc = {'sig': {'self': TL, 'key': STR, 'value': CVAL}, 'locals': {},
+              'requires': [('pre', lambda c: And(c['self'] != TL.null, ForAll([_jq], Implies(And(0 <= _jq, _jq < LTQ.len(L(c))), LTQ.at(L(c), _jq) != T.null), patterns=[LTQ.at(L(c), _jq)]))),
+                           ('plain-attribute-name (not a property of Task)', lambda c: Not(reserved(c['key'])))],
+              'loops': {0: {'fingerprint': 'for t in tasks', 'invariant': [('set-on-the-tasks-visited-so-far', inv)], 'havoc_heap': ['Task.$has', 'Task.$attrs']}},
+              'ensures': [('C18/attribute-set-on-exactly-the-listed-tasks', lambda c: Implies(Not(PrefixOf(StringVal('_'), c['key'])),
+                              And(ForAll([t_], Implies(memq(L(c), t_), And(has(c)[t_][c['key']], at_(c)[t_][c['key']] == c['value'])), patterns=[memq(L(c), t_)]),
+                                  ForAll([t_, k_], Implies(Or(Not(memq(L(c), t_)), k_ != c['key']), And(has(c)[t_][k_] == has(c, 'pre')[t_][k_], at_(c)[t_][k_] == at_(c, 'pre')[t_][k_])))))),
+                          ('C18/private-names-touch-no-task', lambda c: Implies(PrefixOf(StringVal('_'), c['key']), And(has(c) == has(c, 'pre'), at_(c) == at_(c, 'pre'))))]}
+        return Engine(F, '_ImmutableTaskList.__setattr__', {}, classes, fc, plugins=[BulkPlugin()]), LQ_AX
+    return Unit('_ImmutableTaskList.__setattr__', F, build, ['C18'])
+
+
+UNITS.append(bulk_unit())
